@@ -81,5 +81,5 @@ finally:
     # the Gen/*.lean files were regenerated from the patched tree: regenerate them from the clean one
     for t in ("t1_scratch", "t6_twiddles", "t4_scan", "t5_surface"):
         sh([sys.executable, f"/verif/tools/{t}.py"])
-json.dump(res, open(os.path.join(cdir, "result.json"), "w"), indent=1)
+json.dump(res, open(os.path.join(cdir, os.environ.get("SEED_RESULT", "result.json")), "w"), indent=1)
 print(json.dumps(res, indent=1))
